@@ -219,6 +219,47 @@ def _mk_dct(nR, nZ):
     return body
 
 
+def _mk_dct_nodes(nR, nZ):
+    """real DCT_2D.__init__ (transpose, normalisation, zero-mode halving, wavenumbers) followed by the real __call__ at every input node:
+    the interpolant reproduces the input array.  scipy's dct is replaced by its documented definition (type II, unnormalised) on object arrays;
+    the cosines at the nodes are doubles, so reproduction is claimed to 1e-9 for |psi| <= 9 (linear arithmetic in the psi values)"""
+    def body(env):
+        sym = env.mode == "sym"
+        Rarr = 1.0 + 0.5 * numpy.arange(nR)
+        Zarr = -1.0 + 1.0 * numpy.arange(nZ)
+        psi = numpy.empty((nR, nZ), dtype=object if sym else float)      # indexed [R, Z] as geqdsk / TokamakEquilibrium pass it
+        for i in range(nR):
+            for j in range(nZ):
+                psi[i, j] = env.real("psi_%d_%d" % (i, j), lo=-9, hi=9)
+
+        def dct_def(x, axis=0):
+            x = numpy.asarray(x, dtype=object if sym else float)
+            N = x.shape[axis]
+            out = numpy.empty(x.shape, dtype=x.dtype)
+            for k in range(N):
+                acc = 0
+                for n in range(N):
+                    term = numpy.take(x, n, axis=axis) * (2.0 * float(numpy.cos(numpy.pi * k * (2 * n + 1) / (2.0 * N))))
+                    acc = acc + term
+                if axis == 0:
+                    out[k, :] = acc
+                else:
+                    out[:, k] = acc
+            return out
+
+        px = _DctProxy(PROXY) if sym else numpy
+        with patched((dctm, "dct", dct_def), (dctm, "numpy", px)):
+            d = dctm.DCT_2D(Rarr, Zarr, psi)
+            env.witness("constructed")
+            for i in range(nR):
+                for j in range(nZ):
+                    v = d(float(Rarr[i]), float(Zarr[j]))
+                    v = v.item() if isinstance(v, numpy.ndarray) else v
+                    diff = v - psi[i, j]
+                    env.claim("interpolant_reproduces_input_at_node", (diff < 1e-9) & (diff > -1e-9) if sym else abs(diff) < 1e-9)
+    return body
+
+
 class _DctProxy:
     def __init__(self, base):
         self._b = base
@@ -367,6 +408,12 @@ for (_a, _b) in ((2, 2), (3, 2), (2, 3), (3, 3), (4, 3), (3, 4), (4, 4), (5, 4))
                                    "hypnotoad.utils.dct_interpolation:DCT_2D.d2dR2", "hypnotoad.utils.dct_interpolation:DCT_2D.d2dZ2", "hypnotoad.utils.dct_interpolation:DCT_2D.d2dRdZ"],
                           desc="the five derivative methods equal the AD derivatives of __call__ for symbolic DCT coefficients",
                           stubs=["numpy.nditer -> pure-Python iteration", "sin/cos uninterpreted"], bounds="%dx%d coefficients, scalar argument" % (_a, _b)))
+for (_a, _b) in ((2, 2), (3, 2), (2, 3), (4, 3)):
+    OBLIGATIONS.append(Ob("dct_node_reproduction_%dx%d" % (_a, _b), _mk_dct_nodes(_a, _b), tier="quick", family="DCT",
+                          encodes=["hypnotoad.utils.dct_interpolation:DCT_2D.__init__", "hypnotoad.utils.dct_interpolation:DCT_2D.__call__"],
+                          desc="constructor + evaluation: the dct interpolant returns the input value at every input node (to 1e-9 for |psi| <= 9)",
+                          stubs=["scipy.fftpack.dct -> its documented type-II definition", "numpy.nditer -> pure-Python iteration"],
+                          bounds="%dx%d input array (R x Z), values symbolic in [-9, 9]" % (_a, _b)))
 OBLIGATIONS.append(Ob("handleMultiLocationArray", ob_multilocation_handler, tier="quick", family="dispatch",
                       encodes=["hypnotoad.core.equilibrium:Equilibrium.handleMultiLocationArray"],
                       desc="per-location application, scalar pass-through, mixed arguments refused", bounds="1x1 arrays, two locations present"))
